@@ -39,15 +39,15 @@ def run(rep, index):
                        "once); compositions decode(encode(.)) and encode(decode(.)) are evaluated on the same abstract "
                        "buffer, so reversal, position and parity are part of the computation, not of a prose argument.")
     m = index.module(MOD)
-    for fn in ("encode_string", "decode_string", "_invert_characters"):
+    for fn in ("encode_string", "decode_string"):
         if fn not in m.functions:
             raise AnalysisError("anchor vanished: %s.%s" % (MOD, fn))
 
-    # ---- R1: content independence of every loop-carried variable of the per-element loops
-    for fname in ("_invert_characters",):
-        fn = m.functions[fname]
-        if not fn.args.args:
-            raise AnalysisError("%s has no buffer parameter" % fname)
+    # ---- R1: content independence of every loop-carried variable of the per-element loops, in every function of the
+    # module that takes a buffer (the private helpers are found by shape, not by name)
+    for fname, fn in sorted(m.functions.items()):
+        if not fn.args.args or not any(isinstance(n, ast.For) for n in ast.walk(fn)):
+            continue
         bufp = fn.args.args[0].arg
         loops = [n for n in ast.walk(fn) if isinstance(n, ast.For)]
         for lp in loops:
@@ -71,8 +71,9 @@ def run(rep, index):
                        loc=index.loc(m, lp))
     # (no floor: a loop without carried state has nothing that could depend on the contents)
 
-    # ---- R2-R4: the transfer function of one inversion pass
-    paths = run_on_buffer(index, ["_invert_characters"])
+    # ---- R2-R4: the transfer function of one inversion pass (a lemma about the private helper, when it exists under
+    # its present name; the property itself is R5/R6 on the public functions below)
+    paths = run_on_buffer(index, ["_invert_characters"]) if "_invert_characters" in m.functions else []
     rep.count("invert paths", len(paths))
     for p, st, buf in paths:
         B.set_path(p)
@@ -95,7 +96,8 @@ def run(rep, index):
         else:
             rep.ob("C08.R3 image-within-0x21..0x7D", inst, vlo >= 0x21 and vhi <= 0x7D,
                    "c in [%s,%s] -> out in [%s,%s]" % (clo, chi, vlo, vhi))
-    rep.floor("invert paths", 6)
+    if "_invert_characters" in m.functions:
+        rep.floor("invert paths", 6)
 
     # ---- R5/R6: encode and decode reverse the order; both round trips are the identity except at 0x7E
     for name, calls, final_rev in (("encode_string", ["encode_string"], True), ("decode_string", ["decode_string"], True),
